@@ -32,12 +32,13 @@ Record ptab (V : Type) := {
   pt_ans : bool;                                 (* Ans arm *)
   pt_neg_level : nat;                            (* OperatorCategory::Negative *)
   pt_impl_level : nat;                           (* OperatorCategory::Multiplicative *)
-  pt_zero : V                                    (* what avg() becomes *)
+  pt_zero : V;                                   (* what avg() becomes *)
+  pt_numnum : bool                               (* false: the Num arm of parse_number rejects a directly following Num token *)
 }.
 Arguments pt_prec {V}. Arguments pt_infix {V}. Arguments pt_fn {V}. Arguments pt_trigger {V}.
 Arguments pt_bang {V}. Arguments pt_postconst {V}. Arguments pt_sup {V}. Arguments pt_const {V}.
 Arguments pt_open {V}. Arguments pt_neg {V}. Arguments pt_pos {V}. Arguments pt_ans {V}.
-Arguments pt_neg_level {V}. Arguments pt_impl_level {V}. Arguments pt_zero {V}.
+Arguments pt_neg_level {V}. Arguments pt_impl_level {V}. Arguments pt_zero {V}. Arguments pt_numnum {V}.
 
 (** token kinds that parse_number handles in its catch-all tail (constants, brackets, errors) *)
 Definition is_plain (k : kind) : bool :=
@@ -110,7 +111,8 @@ Section Engine.
       | CPrim =>
           match ts with
           | [] => Err
-          | TNum v :: ts' => run f (CImpl (NNum v)) ts'
+          | TNum v :: ts' =>
+              if pt_numnum T || negb (kind_eqb (hdk ts') KNum) then run f (CImpl (NNum v)) ts' else Err
           | TSup _ :: _ => Err
           | TK k :: ts' =>
               match k with
